@@ -7,6 +7,7 @@ import string
 
 from . import regexgram as G
 from .base import BaseProp
+from .base import simpler_policies as _simpler_policies
 from .core import derive, digest, fast_digest
 from .world import DrawCapExceeded, Schedule
 
@@ -233,9 +234,8 @@ class Prop(BaseProp):
     def shrink_candidates(self, v):
         case, sched = v["case"], v["schedule"]
         # 1. simpler schedules
-        for pol in ("lo", "hi"):
-            if sched["policy"] != pol or sched["overrides"]:
-                yield case, {"policy": pol, "seed": sched["seed"], "p": 0.3, "overrides": {}}
+        for pol in _simpler_policies(sched):
+            yield case, {"policy": pol, "seed": sched["seed"], "p": 0.3, "overrides": {}}
         if sched["overrides"]:
             for k in list(sched["overrides"]):
                 o = dict(sched["overrides"])
